@@ -17,6 +17,19 @@ tab = ("## Appendix B — seeded changes and which check catches them\n\n"
        "full text. Checks that first missed a change and were strengthened because of it are listed after the table.\n\n"
        "| Seed | Change (abridged) | Needs to manifest | Detected by the quick check: signatures |\n|---|---|---|---|\n" + '\n'.join(rows) + '\n')
 extra = open(os.path.join(HOME, 'tools', 'seed_notes.md')).read() if os.path.exists(os.path.join(HOME, 'tools', 'seed_notes.md')) else ''
+sp = os.path.join(HOME, 'tools', 'sensitivity_results.json')
+if os.path.exists(sp):
+    res = json.load(open(sp))
+    lines = [f"| {r['property']} | {r['mutant']} | {r.get('file', '')} | {r['status']} | {', '.join('`' + x + '`' for x in r.get('signatures', [])[:1])} |" for r in res]
+    killed = sum(1 for r in res if r['status'] == 'KILLED')
+    extra += ("\n## Appendix C - sensitivity of the checks to catalogued one-line mutants\n\n"
+              "`tools/sensitivity.py` applies one mutant from its catalogue (the mutants planned in section 3, adapted to the code as it is) to a scratch copy of /repo and runs the "
+              f"owning property's quick check against it. {killed} of {len(res)} mutants are killed (exit 1). The survivors are equivalent with respect to the stated property: "
+              "`skip-update-active-orders` / `active-list-keeps-executed` only leave final orders in an internal list that every reader filters by `is_active`; "
+              "`split-bearish-above-open-wrong-high` changes the high of the *earlier* part of a split candle to a value that still satisfies everything C08 states about a split "
+              "(valid parts, O/C/H/L kept, parts meet at the price). `floor-is-round` makes the repaired `size_to_qty` step down one ulp at a time for up to 10^8 iterations: the "
+              "check runs into its task budget and reports INCONCLUSIVE (exit 2), which is the specified outcome for a time-out.\n\n"
+              "| Prop | Mutant | File | Outcome | First signature |\n|---|---|---|---|---|\n" + '\n'.join(lines) + '\n')
 p = os.path.join(HOME, 'DESIGN.md')
 s = open(p).read()
 if '## Appendix B' in s:
